@@ -6,8 +6,22 @@ open TTV.Run TTV.Spec.Run
 
 def observed (t : Trace) : Option Outcome := (outcomeOf t).map (·.1)
 
-/-- the outcome an exception's type maps to (`error` for one nobody claims: the last resort) -/
-def mapsTo (p : Program) (e : Exc) : Outcome := (lookup (handlers p) e).getD .error
+/-- the documented default mapping from exception type to outcome — stated here independently of the
+handler table found in the source (`TTV.Generated.C01`), which the theorems relate to it -/
+def docDefault (c : Cls) : Option Outcome :=
+  if isSub c .skip then some .skip
+  else if isSub c .failure then some .failure
+  else if isSub c .xfail then some .xfail
+  else if isSub c .uxs then some .uxs
+  else if isSub c .exc then some .error
+  else none
+
+/-- the outcome an exception's type maps to: handlers inserted by the user first, in list order, then the
+documented defaults (`error` for one nobody claims: the last resort) -/
+def mapsTo (p : Program) (e : Exc) : Outcome :=
+  match handlerFor p.userHandlers e with
+  | some r => r.outcome
+  | none => (docDefault e.cls).getD .error
 
 /-- success is reported iff no stage raised, no expectThat mismatched and force_failure is unset
 (2.6-style results also show skip / expected failure as success: not judged here, see C08; a handler
